@@ -28,6 +28,7 @@ func inputSources(ctx *fw.Ctx, nStressQuick, nStressThorough int) []corpus.Sourc
 	srcs := baseSources()
 	srcs = append(srcs, corpus.StressSources(ctx.Rand("stress"), ctx.Pick(nStressQuick, nStressThorough), 10, 300)...)
 	srcs = append(srcs, mgenSources(ctx, ctx.Pick(500, 30000))...)
+	srcs = append(srcs, corpus.ClangSources(ctx.Thorough())...)
 	return srcs
 }
 
